@@ -2,7 +2,7 @@ SPECIFICATION Spec
 CONSTANTS PWs = {"p1", "p2", "p3"}
           Labels = {"A", "B"}
           MaxAcc = 2
-          MaxId = 3
+          MaxId = 2
           InitParams = {"default", "low"}
           ConvTo = {"default", "low"}
           NewEnc = "wallet"
